@@ -15,7 +15,7 @@ RULE = (
     "Pairs (P, P'): (a) P' is P under another layout (separators, comments, whitespace) and with integer-valued "
     "gate arguments respelled (1 <-> 1.0): the circuits must be equal; (b) P' is a SINGLE-SITE mutant of P made at "
     "model level - gate name, one argument value, one more/fewer argument, qubit index, loop count, subcircuit "
-    "count, block kind of a block with >= 2 statements, alias bound, let value, register size, usepulses module / order of the imports / a repeated import, "
+    "count, block kind of a block with >= 2 statements, alias bound, let value, register size, usepulses module / order of the imports / a repeated import, a declaration (let, alias, macro) added at the end of its table or an unused last one dropped, "
     "which parameter a macro body uses: whenever the reference semantics says meaning or declarations differ the "
     "circuits must compare unequal in both directions (mutants the reference cannot tell apart, or that are "
     "invalid, are discarded and counted). Always: c == c, (a == b) == (b == a), c == parse(generate(c)), and "
@@ -180,6 +180,69 @@ def _sites(p):
             return True
 
         out.append(("usepulses-module", 0, False, use))
+    # declarations added at the end of their table, or the last one dropped when nothing uses it:
+    # the body means the same, the circuit declares something else
+    names_used = set()
+    for s_ in [x for m in p["macros"] for x in walk([m["body"]])] + list(walk(p["body"])):
+        if s_[0] == "g":
+            names_used.add(s_[1])
+            for a in s_[2]:
+                names_used.update(x for x in a[1:] if isinstance(x, str))
+        elif s_[0] in ("loop", "sub") and isinstance(s_[1], str):
+            names_used.add(s_[1])
+    for m in p["maps"]:
+        names_used.add(m[1])
+        if m[2]:
+            names_used.update(x for x in m[2][1:] if isinstance(x, str))
+    if p["reg"] and isinstance(p["reg"][1], str):
+        names_used.add(p["reg"][1])
+    taken = {l[0] for l in p["lets"]} | {m[0] for m in p["maps"]} | {m["name"] for m in p["macros"]} | ({p["reg"][0]} if p["reg"] else set())
+
+    def add_let(ch):
+        if "zz_extra" in taken:
+            return False
+        p["lets"].append(["zz_extra", 3 + ch % 2])
+        return True
+
+    out.append(("declaration-added", 0, False, add_let))
+    if p["reg"]:
+
+        def add_map(ch):
+            if "zz_alias" in taken:
+                return False
+            p["maps"].append(["zz_alias", p["reg"][0], None if ch % 2 else ["i", 0]])
+            return True
+
+        out.append(("declaration-added", 0, False, add_map))
+
+    def add_macro(ch):
+        if "zz_macro" in taken:
+            return False
+        p["macros"].append({"name": "zz_macro", "params": [], "body": ["seq", []]})
+        return True
+
+    out.append(("declaration-added", 0, False, add_macro))
+    if p["lets"] and p["lets"][-1][0] not in names_used:
+
+        def drop_let(ch):
+            p["lets"].pop()
+            return True
+
+        out.append(("declaration-dropped", 0, False, drop_let))
+    if p["maps"] and p["maps"][-1][0] not in names_used:
+
+        def drop_map(ch):
+            p["maps"].pop()
+            return True
+
+        out.append(("declaration-dropped", 0, False, drop_map))
+    if p["macros"] and p["macros"][-1]["name"] not in names_used:
+
+        def drop_macro(ch):
+            p["macros"].pop()
+            return True
+
+        out.append(("declaration-dropped", 0, False, drop_macro))
     if len(p["usepulses"]) >= 2 and len(set(p["usepulses"])) >= 2:
 
         def reorder(ch):
